@@ -573,15 +573,18 @@ package ship
 //@   ensures [C11] F1-step: @F1STEP(c)
 //@   ensures [C06] B8-keep: @BUFKEEP(c)
 //@   modifies @hs(c)
+// (approve/abort reach a connection through the hub's registry; a closed connection is still registered only while a
+// graceful close of a completed connection waits out its grace period - every other close reports its end, and with
+// it leaves the registry, before it returns)
 //@ func (c *ShipConnection).ApprovePendingHandshake() entry [C04,C01]
 //@   requires [C01] G0-approved: $Trusted[norm(c.remoteSKI)]
-//@   requires !c.shutdownOnce.$done
+//@   requires c.shutdownOnce.$done ==> c.smeState == model.SmeStateComplete
 //@   ensures [C04] E3-step: stepOK(c.role, old(c.smeState), c.smeState)
 //@   ensures [C11] F1-step: @F1STEP(c)
 //@   ensures [C06] B8-keep: @BUFKEEP(c)
 //@   modifies @hs(c)
 //@ func (c *ShipConnection).AbortPendingHandshake() entry [C04,C10]
-//@   requires !c.shutdownOnce.$done
+//@   requires c.shutdownOnce.$done ==> c.smeState == model.SmeStateComplete
 //@   ensures [C04] E3-step: stepOK(c.role, old(c.smeState), c.smeState)
 //@   ensures [C10,C01] D3-abort: old(c.smeState) == model.SmeHelloStatePendingListen || old(c.smeState) == model.SmeHelloStateReadyListen ==> terminal(c.smeState)
 //@   ensures [C11] F1-step: @F1STEP(c)
@@ -657,7 +660,6 @@ package ship
 //@   atcall WriteMessageToWebsocketConnection [C06,C12] S2-fresh: fresh($0)
 //@   modifies @cl(c)
 //@ func (c *ShipConnection).WriteShipMessageWithPayload(message) entry [C06,C08]
-//@   requires c.smeState == model.SmeStateComplete
 //@   modifies @cl(c)
 
 // every field of the structs shared between goroutines is classified (C20)
